@@ -289,6 +289,10 @@ func c07(env *core.Env) {
 	}
 	head := carrier == "ResolveBlob" || carrier == "ResolveManifest" || carrier == "ResolveTag"
 	var texts []string
+	// Servers may be configured to redirect blob downloads; a function that names no
+	// location means "serve it yourself" (the server still asks its backend about the
+	// blob first).
+	locationsOption := c.Bool("hop.locations-option", 1, 5)
 	for hops := 1; hops <= 3; hops++ {
 		var r ociregistry.Interface = scriptedBackend(orig)
 		if strings.HasPrefix(carrier, "Writer.") {
@@ -301,6 +305,9 @@ func c07(env *core.Env) {
 		if strings.HasSuffix(carrier, ".later-page") {
 			r = laterPageBackend(orig)
 			o.PageSize = 2
+		}
+		if locationsOption {
+			o.Server.LocationsForDescriptor = func(bool, ociregistry.Descriptor) ([]string, error) { return nil, nil }
 		}
 		// The body of the error response may break off on its way to the caller: the code
 		// and the message are lost with it, the status is not (it came first).
